@@ -303,3 +303,88 @@ Qed.
 
 Lemma inv1_init : forall p, inv1 (init p).
 Proof. intro p. unfold inv1; cbn. intuition (try discriminate; try congruence). Qed.
+
+(* ---------- STAT stream: numbering by position is exact ---------- *)
+Definition is_stat (pk : packet) : bool := match pk with PStat => true | _ => false end.
+Definition is_end (pk : packet) : bool := match pk with PEnd => true | _ => false end.
+Definition count_stat (l : list packet) : nat := length (filter is_stat l).
+Definition has_end (l : list packet) : bool := existsb is_end l.
+Fixpoint end_last (l : list packet) : bool :=
+  match l with
+  | [] => true
+  | pk :: r => (if is_end pk then count_stat r =? 0 else true) && end_last r
+  end.
+
+Lemma count_stat_app : forall l x, count_stat (l ++ [x]) = count_stat l + b2n (is_stat x).
+Proof. unfold count_stat. intros. rewrite filter_app, app_length. cbn. destruct (is_stat x); reflexivity. Qed.
+Lemma count_stat_cons : forall x l, count_stat (x :: l) = b2n (is_stat x) + count_stat l.
+Proof. unfold count_stat. intros. cbn. destruct (is_stat x); reflexivity. Qed.
+Lemma has_end_app : forall l x, has_end (l ++ [x]) = has_end l || is_end x.
+Proof. unfold has_end. intros. rewrite existsb_app. cbn. rewrite orb_false_r. reflexivity. Qed.
+Lemma end_last_app_nonstat : forall l x, is_stat x = false -> end_last (l ++ [x]) = end_last l.
+Proof.
+  induction l; intros; cbn.
+  - destruct (is_end x); reflexivity.
+  - rewrite IHl by auto. rewrite count_stat_app, H. cbn. rewrite Nat.add_0_r. reflexivity.
+Qed.
+Lemma end_last_app_noend : forall l x, has_end l = false -> end_last (l ++ [x]) = true.
+Proof.
+  induction l; intros; cbn in *.
+  - destruct (is_end x); reflexivity.
+  - apply orb_false_elim in H. destruct H as [H1 H2]. rewrite H1. cbn. auto.
+Qed.
+Lemma end_last_cons : forall x l,
+  end_last (x :: l) = (if is_end x then count_stat l =? 0 else true) && end_last l.
+Proof. reflexivity. Qed.
+Lemma has_end_cons : forall x l, has_end (x :: l) = is_end x || has_end l.
+Proof. reflexivity. Qed.
+Arguments count_stat : simpl never.
+Arguments has_end : simpl never.
+Arguments end_last : simpl never.
+
+Definition inv2 (p : params) (st : state) : Prop :=
+  (g_got_end_r st = false -> g_got_fin_r st = false -> rl_i st + count_stat (buf_sr st) = sw_i st) /\
+  (sw_i st <= nentries p /\
+   match sw_pc st with
+   | SW_Lock KStat | SW_Send KStat => sw_i st < nentries p
+   | SW_Lock KEnd | SW_Send KEnd => sw_i st = nentries p
+   | _ => True end) /\
+  (g_end_sr st = true -> sw_i st = nentries p /\ sw_pc st = SW_Done) /\
+  (has_end (buf_sr st) = true -> g_end_sr st = true) /\
+  (g_got_end_r st = true -> g_end_sr st = true /\ count_stat (buf_sr st) = 0 /\ rl_i st = nentries p) /\
+  (match rl_pc st with
+   | RL_Upd | RL_Push => g_got_end_r st = false
+   | RL_UpdEnd => g_got_end_r st = true
+   | _ => True end) /\
+  (walk_closed st = true -> g_got_end_r st = true) /\
+  end_last (buf_sr st) = true /\
+  (match rl_pc st with RL_Drain => g_got_fin_r st = true | RL_Done => True | _ => g_got_fin_r st = false end).
+
+Lemma inv2_step : forall p st l st', inv2 p st -> step p st l = Some st' -> inv2 p st'.
+Proof.
+  intros p st l st' I H. unfold inv2 in I.
+  destruct I as (I1 & (I2a & I2) & I3 & I4 & I5 & I6 & I7 & I8 & I9).
+  destruct l; unfold_steps H; step_split H; inv_some; subst; unfold inv2;
+  repeat match goal with w : writer |- _ => destruct w; cbn in * end; subst; cbn;
+  repeat match goal with E : _ = _ |- _ => rewrite E in * end; cbn in *;
+  rewrite ?count_stat_app, ?has_end_app, ?count_stat_cons, ?end_last_cons, ?has_end_cons in *; cbn in *;
+  rewrite ?end_last_app_nonstat by reflexivity;
+  rewrite ?orb_false_r, ?orb_true_r, ?Nat.add_0_r in *.
+  all: repeat match goal with
+       | H : (_ <? _) = true |- _ => apply Nat.ltb_lt in H
+       | H : (_ <? _) = false |- _ => apply Nat.ltb_ge in H
+       | H : (_ =? _) = true |- _ => apply Nat.eqb_eq in H
+       | H : _ && _ = true |- _ => apply andb_prop in H; destruct H
+       end.
+  all: try match goal with |- context [end_last (buf_sr ?s ++ [PStat])] =>
+         assert (g_end_sr s = false) by (destruct (g_end_sr s) eqn:G; auto; exfalso; destruct I3 as [_ X]; auto; discriminate X);
+         assert (has_end (buf_sr s) = false) by (destruct (has_end (buf_sr s)); auto; exfalso; assert (true = true) as X by auto; apply I4 in X; congruence);
+         rewrite end_last_app_noend by auto end.
+  all: try (intuition (try discriminate; try congruence; try lia; auto); fail).
+  all: try (destruct (rl_pc st); intuition (try discriminate; try congruence; try lia; auto); fail).
+  all: try (destruct (g_got_end_r st) eqn:?; destruct (g_end_sr st) eqn:?; intuition (try discriminate; try congruence; try lia; auto); fail).
+  all: try (destruct p0; cbn in *; destruct (g_got_end_r st) eqn:?; destruct (g_end_sr st) eqn:?; intuition (try discriminate; try congruence; try lia; auto); fail).
+Qed.
+
+Lemma inv2_init : forall p, inv2 p (init p).
+Proof. intro p. unfold inv2; cbn. intuition (try discriminate; try congruence; try lia). Qed.
